@@ -13,7 +13,7 @@ PK = ("refl", "phase", "loss")
 
 
 def config(name):
-    par = dict(NPar=3, ParKinds=PK, ParInit=(1, 1, 0), ParVals={0, 1, 9}, Rids={1001}, Pids={1002, 3}, LossQs={1003}, Lqs={0, 1003},
+    par = dict(NPar=3, ParKinds=PK, ParInit=(1, 1, 0), ParVals={0, 1, 9, 10}, Rids={1001}, Pids={1002, 3}, LossQs={1003}, Lqs={0, 1003},
                Convs={"H"}, ModeCap=2)
     if name == "live_single":        # parameter at every position kind, shared between a circuit and its (frozen) copies, rewrites in between
         return cc.consts_of(**par, NUs={3}, NObj=2, Targets={1, 2}, Numeric=True, MaxLen=3,
